@@ -330,6 +330,6 @@ UNITS = [
          doc="properly signed successor roots (reference OpenPGP signer) are accepted by verify_root / verify_delegation"),
     Unit("fixtures", check_fixture, enumerate=enum_fixtures, exhaustive=True, shards_quick=1, shards_thorough=1,
          doc="signed fixtures shipped with the repository (tests/testdata, demo) still verify"),
-    Unit("config", check_config, strategy=_config_cases, quick=24, thorough=400,
+    Unit("config", check_config, shrink=False, strategy=_config_cases, quick=24, thorough=400,
          doc="fresh interpreters: pre-imported modules x PYTHONIOENCODING x hash seed x locale x cwd"),
 ]
